@@ -12,7 +12,7 @@ for f in glob.glob('/tmp/seed-%s-out/*' % k):
     shutil.copy(f, os.path.join(d, 'agent_meta.json' if n == 'meta.json' else n))
 a = json.load(open(d + '/agent_meta.json'))
 base = os.popen('git -C /repo log --format=%h -1').read().strip()
-m = {"property": k, "summary": a.get("summary"), "needs": a.get("needs"), "files_touched": a.get("files_touched"),
+m = {"property": k[:3], "seed_id": k, "summary": a.get("summary"), "needs": a.get("needs"), "files_touched": a.get("files_touched"),
      "produced_by": "fresh sub-agent given only the property text and a scratch worktree",
      "confirmed_by_coordinator": ["tools/seedeval.py %s: patch applied to a fresh worktree of /repo HEAD (builds with and without -tags verif); demonstration passes on the unpatched tree/binary and fails on the patched one; VERIF_REPO=/tmp/seedrun-%s ./check %s --no-evidence" % (k, k, cb)],
      "checks_result": res, "caught_by": cb, "strengthened": st, "repo_base_commit": base}
